@@ -54,6 +54,9 @@ def make(ctl, plain, mode="constant", maxp=1, layer=False, th=None, red=None):
     params = {"c04": cfgdesc.c04_params(refdesc),
               "ctl": [{"c": cfgdesc.code(CTL[n][0]), "k": CTL[n][1], "n": CTL[n][2]} for n in ctl],
               "th": ths, "max": maxp, "recorded": mode == "recorded", "red": 5 if red is None else red,
+              # liveness bound (stepper calls per replayed event): the constant pace (5 today) and the pause after a nested
+              # macro are not fixed by the statement
+              "live": 50,
               # the gaps between recorded events are read with recorded delays: whether a gap is 2 ticks or more decides the
               # call in which the replayed event shows; a time-sensitive key needs the gap up to its timeout
               "gcap": (max(2, th[1] + 2) if th else 2) if mode == "recorded" else 0}
@@ -91,6 +94,8 @@ def instance(name, desc, params, D=1, qmax=1, maclen=3, free_replay=False, saves
     not expanded (HashSet iteration order, DynMacro.tla)."""
     kbd = cfgdesc.render_kbd(desc)
     keys = [cfgdesc.code(k) for k in desc["keys"]]
+    # the exhaustive instances run the monitor with a tighter liveness bound (the counter is part of the state graph)
+    params = dict(params, live=12)
     ctl = "{" + ", ".join(str(c["c"]) for c in params["ctl"]) + "}"
     rec = "{" + ", ".join(str(c["c"]) for c in params["ctl"] if c["k"] == "rec") + "}"
     play = "{" + ", ".join(str(c["c"]) for c in params["ctl"] if c["k"] == "play") + "}"
@@ -102,7 +107,7 @@ def instance(name, desc, params, D=1, qmax=1, maclen=3, free_replay=False, saves
         replay_doc="" if free_replay else "; while a replay runs only control keys are released",
         press_guard="" if free_replay else "/\\ K.dyn.rep = <<>>",
         release_guard="" if free_replay else "/\\ (K.dyn.rep = <<>> \\/ c \\in CtlCodes)")
-    bound = ("DynBound == /\\ ~K.dyn.amb /\\ mon.budget <= 100 /\\ K.dyn.ns <= %d /\\ (K.dyn.rec = <<>> \\/ (K.dyn.rec[1].delay <= %d /\\ "
+    bound = ("DynBound == /\\ ~K.dyn.amb /\\ mon.budget <= 200 /\\ K.dyn.ns <= %d /\\ (K.dyn.rec = <<>> \\/ (K.dyn.rec[1].delay <= %d /\\ "
              "Len(K.dyn.rec[1].items) <= %d))" % (saves, D, maclen))
     # vacuity probe: one line per transition on which the monitor has followed a replay to its end in its sharp mode
     probe = ("SyncDone == (mon.replaying /\\ ~mon'.replaying /\\ mon.mode = \"sync\" /\\ mon'.mode = \"sync\" /\\ mon'.err = \"\" "
